@@ -23,7 +23,10 @@ RULE = ('cross product ping_interval(8, incl. fractional and (interval,grace)) '
         'also sends a message to the new sid; thorough = the whole grid, quick = '
         'seeded sample of it plus all cells differing from the default in one '
         'coordinate. distinct = distinct cells; every executed cell evaluates '
-        'the OPEN/401 reference so every cell is non-trivial')
+        'the OPEN/401 reference so every cell is non-trivial; third server = '
+        'asyncio behind the real aiohttp adapter; plus sequences of 3..6 '
+        'opens over mixed transports on one server, overlapping opens, '
+        'cookie sequences')
 ASSUMPTIONS = ['cookie oracle applies to polling/JSONP opens (a WebSocket open '
                'has no response-header channel in the package)',
                'advertised times compared with float(config)*1000 at |d|<1 ms',
